@@ -245,6 +245,29 @@ def _same_key_respelled(rng, typ, text):
     return text
 
 
+
+RESPELLED_PAIRS = {
+    'Time_Period': [('2020M1', '2020-01'), ('2020Q1', '2020-Q1'), ('2020', '2020A'), ('2020D32', '2020-02-01'), ('2020M01', '2020M1'),
+                    ('2020-M01', '2020M1'), ('2020W05', '2020-W05'), ('2020S1', '2020-S1')],
+    'Integer': [('7', '07'), ('1', '1.0'), ('7', '+7'), ('7', ' 7')],
+    'Number': [('1.5', '1.50'), ('1', '1.0'), ('100', '1e2'), ('0.5', '.5')],
+    'Boolean': [('true', 'True'), ('true', 'TRUE'), ('false', 'False')],
+    'Date': [('2020-01-01', '2020-01-01 00:00:00'), ('2020-01-01', '2020-01-01T00:00:00')],
+}
+
+
+def respelled_duplicate_cases():
+    """one identifier of each type whose two rows spell the SAME value in two documented ways (plus an Integer
+    identifier that is equal): duplicates are to be found on denoted values, in every input form"""
+    out = []
+    for typ, pairs in RESPELLED_PAIRS.items():
+        for a, b in pairs:
+            struct = [comp('Id_1', 'Integer', 'Identifier', False), comp('Id_2', typ, 'Identifier', False), comp('Me_1', 'Number', 'Measure', True)]
+            out.append({'struct': struct, 'columns': [c['name'] for c in struct], 'rows': [['1', a, '1.5'], ['1', b, '2.5']],
+                        'kind': 'duplicate-key-respelled:%s:%s~%s' % (typ, a, b)})
+    return out
+
+
 def structural_case(rng, kind):
     """A random well-formed table with one injected structural violation (or none for kind 'valid')."""
     n_ids = 0 if kind in ('no-ids-two-rows', 'no-ids-one-row', 'no-ids-zero-rows') else rng.randint(1, 3)
